@@ -5,7 +5,7 @@ from harness.flatten import coq_list, coq_bool
 from harness.props._common import run_eval, replay_eval
 
 PROPS_FILE = "P_C06"
-COQ_TARGETS = ["CaseLib", "CvoModel", "CvoGates", "CvoAux", "PivotCert"]
+COQ_TARGETS = ["CaseLib", "CvoModel", "CvoGates", "CvoAux", "PivotCert", "SparseSim"]
 RULE = ("correspondence: the instruction list of CvoqramInitialize(...).definition (with/without auxiliaries, every mcg_method) is "
         "compared inside Coq with CvoModel.cvo_gates for Hamming-sorted dictionaries, n = 2..6/9, together with the executable order premise "
         "ordered_b of C06_cvo_gates / C06_cvo_gates_aux; contract: the 2x2 matrices of the "
@@ -14,13 +14,16 @@ RULE = ("correspondence: the instruction list of CvoqramInitialize(...).definiti
         "multi-controlled X (Qiskit mcx_vchain as ideal; small Mcg blocks checked numerically to be the ideal MCX) or, with auxiliaries, blocks "
         "rccx ladder ; CX ; reversed ladder (Qiskit's rccx matrix compared with the model's), the side conditions of "
         "C06_pivot_cert / C06_pivot_aux_cert are evaluated in Coq, and the dense vector handed to LowRankInitialize must carry each key's amplitude at the index "
-        "scls (rev Q) key computed in Coq from the emitted gates; direct evaluation (harness/props/c06_eval.py): full state incl. auxiliaries for merge, pivot and CVO-QRAM. "
+        "scls (rev Q) key computed in Coq from the emitted gates; MergeInitialize, n = 2..12/18: the instruction list is simulated symbolically "
+        "inside Coq (SparseSim.ssim) and must reach the basis states through the matrix entries the harness lists, whose products are "
+        "compared with the dictionary; direct evaluation (harness/props/c06_eval.py): full state incl. auxiliaries for merge, pivot and CVO-QRAM. "
         "distinct = distinct (dictionary, options); non-trivial = m >= 2")
 ASSUMPTIONS = ["without auxiliary qubits the multi-controlled U is C04's gate (Mcg / LdMcSpecialUnitary / Qiskit control): modelled as ideal, "
                "evaluated in the direct evaluation; with auxiliary qubits the rccx ladder of _mcuvchain is part of the proved gate list "
                "(Qiskit's rccx matrix is compared with CvoGates.rccx on every rccx met)",
                "pivot: the dense low-rank preparation is C07's; Qiskit's mcx_vchain is taken as the ideal MCX restoring its dirty ancillas; "
-               "merge: evaluated only"]
+               "merge: the multi-controlled U gates (Ldmcu) are taken as ideal (C04_ldmcu; blocks of up to 6 qubits are checked numerically); "
+               "the finitely many products of 2x2 matrix entries along the simulated paths are compared numerically (1e-9) with the dictionary"]
 TRUSTED = ["top-level instruction list of the definition (no flattening needed)"]
 HEADER = ("From Coq Require Import List Bool Arith.\nFrom QV Require Import CvoModel CvoGates CvoAux CaseLib.\nImport ListNotations.\n"
           "Definition cgate_eqb (g h : cgate) : bool := match g, h with\n"
@@ -272,9 +275,133 @@ def pivot_correspondence(ctx):
     run_bool_cases(ctx, "c06_pivot", PHEADER, lines, cases, on_fail, shard=20)
 
 
+SHEADER = ("From Coq Require Import List Bool Arith NArith.\nFrom QV Require Import SparseSim CaseLib.\nImport ListNotations.\n"
+           "Definition step_eqb (a b : step) : bool := let '(i, r, c) := a in let '(j, r', c') := b in Nat.eqb i j && Bool.eqb r r' && Bool.eqb c c'.\n"
+           "Definition sentry_eqb (a b : sentry) : bool := list_eqb step_eqb (fst a) (fst b) && N.eqb (snd a) (snd b).\n"
+           "Definition sim_is (gates : list mg) (expected : list sentry) : bool :=\n"
+           "  forallb mwfb gates && list_eqb sentry_eqb (ssim gates [([], 0%N)]) expected.\n")
+
+
+def merge_correspondence(ctx):
+    """MergeInitialize: the instruction list (X, CX, one-qubit U, multi-controlled U = Ldmcu) is simulated symbolically inside Coq from
+    |0..0> (SparseSim.ssim, sound by C06_sparse_sim): the basis states reached and the matrix entries multiplied along each path must be
+    the ones the harness lists; the harness then multiplies those 2x2 entries numerically and compares with the dictionary."""
+    from qiskit.quantum_info import Operator
+    from qclib.state_preparation import MergeInitialize
+    from harness import monitors
+    from harness.props.c06_eval import enc, layout, effective
+    nmax = 12 if ctx.quick else 18
+    cases, lines = [], []
+    timed_out = False
+    for n in range(2, nmax + 1):
+        if timed_out:
+            break
+        for m in sorted({2, 3, 5, min(2 ** n, 8), min(2 ** n, 13)}):
+            if m > 2 ** n:
+                continue
+            for rep in range(2 if n <= 6 else 1):
+                keys = [int(k_) for k_ in ctx.rng.choice(2 ** n, size=m, replace=False)]
+                kind = ["complex", "real", "negative"][int(ctx.rng.integers(3))]
+                a = ctx.rng.normal(size=m) + (1j * ctx.rng.normal(size=m) if kind == "complex" else 0)
+                if kind == "negative":
+                    a = -np.abs(a)
+                a = a / np.linalg.norm(a)
+                d = {format(k_, f"0{n}b"): (complex(v) if kind == "complex" else float(np.real(v))) for k_, v in zip(keys, a)}
+                case = {"class": "MergeInitialize", "opt_params": None, "aux": False, "mcg_method": None, "n": n, "m": m,
+                        "keys": list(d.keys()), "amps": enc([complex(v) for v in d.values()]), "types": "complex" if kind == "complex" else "float",
+                        "family": "merge_correspondence"}
+                try:
+                    with monitors.time_limit(300):
+                        circ = MergeInitialize(d).definition
+                except monitors.InstanceTimeout:
+                    ctx.violation(f"MergeInitialize on n={n}, m={m}: the construction did not terminate within 300 s", dict(case, clause="termination"))
+                    timed_out = True
+                    break
+                except Exception as ex:
+                    ctx.note(f"MergeInitialize raised {type(ex).__name__} on n={n} m={m}")
+                    continue
+                ctx.count("corr:merge", key=("merge", n, m, tuple(sorted((k_, complex(v)) for k_, v in d.items()))), nontrivial=True,
+                          sample={"n": n, "m": m, "instructions": len(circ.data)} if (n, m) == (6, 5) else None)
+                ctx.max_struct_qubits = max(getattr(ctx, "max_struct_qubits", 0), n)
+                cases.append(case)
+                _, index_of = layout("MergeInitialize", effective("MergeInitialize", None), n, m)
+                mats, items, gates = [], [], []
+                for inst in circ.data:
+                    op = inst.operation
+                    qs = [circ.find_bit(q).index for q in inst.qubits]
+                    if op.name == "x":
+                        items.append(f"MGX {qs[0]}")
+                        gates.append(("x", qs[0]))
+                    elif op.name == "cx" and getattr(op, "ctrl_state", 1) == 1:
+                        items.append(f"MGCX {qs[0]} {qs[1]}")
+                        gates.append(("cx", qs[0], qs[1]))
+                    elif op.name == "u" and len(qs) == 1:
+                        mats.append(np.asarray(op.to_matrix()))
+                        items.append(f"MGU {len(mats) - 1} [] {qs[0]}")
+                        gates.append(("u", len(mats) - 1, [], qs[0]))
+                    elif op.name == "Ldmcu" and getattr(op, "ctrl_state", None) is None:
+                        U2 = np.asarray(op.unitary, dtype=complex)
+                        if len(qs) <= 6:
+                            ctx.monitor("merge_ldmcu_block_is_ideal")
+                            k_ = len(qs) - 1
+                            ref = np.eye(2 ** (k_ + 1), dtype=complex)
+                            i0, i1 = 2 ** k_ - 1, 2 ** (k_ + 1) - 1
+                            ref[np.ix_([i0, i1], [i0, i1])] = U2
+                            if np.abs(np.asarray(Operator(op).data) - ref).max() > 1e-9:
+                                ctx.mismatch("C06 contract: an Ldmcu block of MergeInitialize is not the ideal multi-controlled gate", case)
+                        mats.append(U2)
+                        items.append(f"MGU {len(mats) - 1} {coq_list([str(q) for q in qs[:-1]])} {qs[-1]}")
+                        gates.append(("u", len(mats) - 1, qs[:-1], qs[-1]))
+                    else:
+                        items.append("MGCX 0 0")            # not in the alphabet: fails the side condition
+                        gates.append(("bad",))
+                # the same symbolic simulation in Python (order of entries as in SparseSim.ssim)
+                ents = [((), 0)]
+                for g_ in gates:
+                    if g_[0] == "x":
+                        ents = [(p_, b_ ^ (1 << g_[1])) for p_, b_ in ents]
+                    elif g_[0] == "cx":
+                        ents = [(p_, b_ ^ (1 << g_[2]) if (b_ >> g_[1]) & 1 else b_) for p_, b_ in ents]
+                    elif g_[0] == "u":
+                        _, i_, cs_, t_ = g_
+                        new = []
+                        for p_, b_ in ents:
+                            if all((b_ >> c_) & 1 for c_ in cs_):
+                                old = (b_ >> t_) & 1
+                                new.append((((i_, 0, old),) + p_, b_ & ~(1 << t_)))
+                                new.append((((i_, 1, old),) + p_, b_ | (1 << t_)))
+                            else:
+                                new.append((p_, b_))
+                        ents = new
+                    if len(ents) > 4096:
+                        break
+                exp = coq_list(["(" + coq_list([f"({i_}, {coq_bool(bool(r_))}, {coq_bool(bool(c_))})" for i_, r_, c_ in p_]) + f", {b_}%N)"
+                                for p_, b_ in ents])
+                lines.append(f"(sim_is {coq_list(items)} {exp})")
+                # numerical part: products of the 2x2 entries along the paths
+                ctx.monitor("merge_path_products")
+                amp = {}
+                for p_, b_ in ents:
+                    v = 1.0 + 0j
+                    for i_, r_, c_ in p_:
+                        v *= mats[i_][r_, c_]
+                    amp[b_] = amp.get(b_, 0.0) + v
+                want = {index_of(k_): complex(v) for k_, v in d.items()}
+                err = max([abs(amp.get(b_, 0.0) - v) for b_, v in want.items()] + [abs(v) for b_, v in amp.items() if b_ not in want])
+                if err > 1e-9:
+                    ctx.mismatch(f"C06 contract: the products of matrix entries along the simulated paths of MergeInitialize differ from the "
+                                 f"dictionary by {err:.1e}", case)
+
+    def on_fail(c):
+        ctx.mismatch("C06 correspondence: the symbolic simulation of MergeInitialize's instruction list inside Coq differs from the harness's "
+                     "(or a gate violates the side conditions of C06_sparse_sim)", c)
+    run_bool_cases(ctx, "c06_merge", SHEADER, lines, cases, on_fail, shard=10)
+
+
 def run(ctx):
     correspondence(ctx)
     pivot_correspondence(ctx)
+    merge_correspondence(ctx)
     run_eval(ctx, "C06")
 
 
@@ -292,7 +419,7 @@ MANIFEST = dict(
           "without them modulo the multi-controlled U being ideal (C06_cvo_gates): from |0..0> the circuit yields sum_j x_j|pattern_j>|flag=0> + g_m|last pattern>|flag=1> with "
           "x_j = U_j[0,1] g_j, g_(j+1) = U_j[1,1] g_j, under the executable order premise implied by the Hamming-weight order (C06_cvo_gates, C06_cvo_loop, C06_cvo_step). "
           "Tie: the instruction list of CvoqramInitialize (aux/no aux, every backend) is compared inside Coq with CvoModel.cvo_gates together with the order premise; the emitted "
-          "rotation matrices must satisfy x_j = requested amplitude, g_m = 0; Qiskit's rccx matrix is compared with the theorem's. PIVOT, with and without auxiliaries: for every circuit Q of X, CX, multi-controlled X gates and blocks 'rccx ladder ; CX from the top ancilla ; reversed ladder' (such a block permutes the basis states for EVERY ancilla content: the relative phases cancel, C06_rccx_block) and every finite superposition, a dense state carrying each amplitude at the image of its key under the reversed circuit is turned by Q into exactly the listed amplitudes on the listed basis states, ancillas in 0 (C06_pivot_cert, C06_pivot_aux_cert, C06_classical_moves_basis); tie: side conditions and the index map evaluated inside Coq on the emitted gates against the dense vector the code builds, n to 14/22. Merge and all full-state claims are evaluated; every construction runs under a per-instance watchdog (a pivoting loop that stops terminating is reported, not waited for)."),
-    note="Modelled, not verified: the multi-controlled U without auxiliaries (C04 gates / Qiskit control) as ideal; Qiskit's rccx/cu matrices (compared numerically); pivot: which pivots the loop chooses is not modelled (any choice is covered by the theorem; termination is watched at run time); merge evaluated only.",
+          "rotation matrices must satisfy x_j = requested amplitude, g_m = 0; Qiskit's rccx matrix is compared with the theorem's. PIVOT, with and without auxiliaries: for every circuit Q of X, CX, multi-controlled X gates and blocks 'rccx ladder ; CX from the top ancilla ; reversed ladder' (such a block permutes the basis states for EVERY ancilla content: the relative phases cancel, C06_rccx_block) and every finite superposition, a dense state carrying each amplitude at the image of its key under the reversed circuit is turned by Q into exactly the listed amplitudes on the listed basis states, ancillas in 0 (C06_pivot_cert, C06_pivot_aux_cert, C06_classical_moves_basis); tie: side conditions and the index map evaluated inside Coq on the emitted gates against the dense vector the code builds, n to 14/22. MERGE: the instruction list (X, CX, one-qubit and multi-controlled U with arbitrary matrices) is simulated symbolically inside Coq from |0..0> - basis states reached and, per basis state, the matrix entries multiplied - and this sparse simulation is proved sound for every such circuit (C06_sparse_sim, C06_sparse_sim_from_zero), n to 12/18; the products of the entries are then compared with the dictionary numerically. All full-state claims are also evaluated directly; every construction runs under a per-instance watchdog (a pivoting loop that stops terminating is reported, not waited for)."),
+    note="Modelled, not verified: the multi-controlled U without auxiliaries (C04 gates / Qiskit control) as ideal; Qiskit's rccx/cu matrices (compared numerically); pivot: which pivots the loop chooses is not modelled (any choice is covered by the theorem; termination is watched at run time); merge: the choice of the strings to merge is not modelled (any instruction list is covered by the simulation theorem).",
     technique="Coq proof (explicit-state loop invariant; flip-flop permutation semantics) + instruction-list correspondence and premise evaluation (vm_compute) + amplitude-recurrence contract + state-vector evaluation",
     design_ref="DESIGN.md section 4, C06")
